@@ -621,6 +621,13 @@ class simulation_model():
 
         mymemo = self.memo[equation]
 
+        # Snap times that are a grid point up to float noise (0.4-0.1-0.1-0.1 != 0.1) onto the grid.
+        # Otherwise t-dt chains miss the memo and the "t <= starttime" test of stocks, which adds an Euler step.
+        if self.dt != 0 and (type(arg) is float or type(arg) is int or isinstance(arg, np.floating)):
+            snapped = round(self.starttime + round((arg - self.starttime) / self.dt) * self.dt, 10)
+            if abs(snapped - arg) < abs(self.dt) * 1e-6:
+                arg = snapped
+
         if arg in mymemo.keys():
             return mymemo[arg]
         else:
